@@ -453,7 +453,13 @@ def parseLine(raw, eols=(CRLF, LF, CR ), kind="event line"):
 
     Raise error if eol not found before MAX_LINE_SIZE
     """
+    skip = False  # True when line ended with CR as last byte of raw, LF may follow
     while True:
+        if skip and raw:  # LF right after CR that ended previous line is same eol
+            if raw[0:1] == LF:
+                del raw[0:1]
+            skip = False
+
         index = -1
         for each in eols:  # find earliest eol in raw, when tied first in eols wins
             found = raw.find(each)  # not found == -1
@@ -474,6 +480,8 @@ def parseLine(raw, eols=(CRLF, LF, CR ), kind="event line"):
         line = raw[:index]
         index += len(eol)  # strip eol
         del raw[:index] # remove used bytes
+        if eol == CR and CRLF in eols and not raw:  # rest of CRLF may come later
+            skip = True
         (yield line)
     return
 
